@@ -38,6 +38,14 @@ K_PARAM_REBOUND = ("container type parameter re-bound at a later node by a direc
 K_INPLACE = ("augmented assignment on a name whose possible values differ in having the in-place dunder: only the "
              "__iop__ alternative is evaluated (documented TODO in vm_utils.call_inplace_operator)")
 
+K_COND = ("value only explainable through contradictory branch conditions: the lost binding becomes visible at exit "
+          "when node conditions are ignored (its sources were attributed to bindings that are infeasible on the "
+          "path that runs)")
+K_REBOUND = ("variable re-bound at a later node on the way to the exit (strong update on a merged abstract object or "
+             "type-parameter merge): the lost binding is overwritten according to the CFG although the value survives at run time")
+K_BRANCH_ATTR = ("instance attribute assigned only in a branch that did not run shadows the class attribute on every path")
+K_SELFCONFLICT = "self-conflicting source set: two bindings of one variable are required together"
+
 CAPTURE = {}
 _installed = False
 
@@ -236,6 +244,42 @@ def notrun_signature(invisible, executed_lines, max_nodes=600, def_ranges=()):
   return None
 
 
+def selfconflict_signature(invisible, max_nodes=600):
+  seen = set()
+  todo = list(invisible)
+  steps = 0
+  while todo and steps < max_nodes:
+    b = todo.pop()
+    if b.id in seen:
+      continue
+    seen.add(b.id)
+    steps += 1
+    for o in b.origins:
+      for ss in o.source_sets:
+        vs = [x.variable.id for x in ss]
+        if len(set(vs)) != len(vs):
+          return {"binding": b.id, "node": o.where.name, "source_set": sorted(x.id for x in ss)}
+        todo.extend(ss)
+  return None
+
+
+def branch_attr_signature(tree, executed_lines):
+  """An attribute store on a line that did not run, for a name that is also a class-level attribute."""
+  import ast
+  class_attrs = set()
+  for cls in [n for n in ast.walk(tree) if isinstance(n, ast.ClassDef)]:
+    for st in cls.body:
+      if isinstance(st, ast.Assign):
+        for t in st.targets:
+          if isinstance(t, ast.Name):
+            class_attrs.add(t.id)
+  for n in ast.walk(tree):
+    if isinstance(n, ast.Attribute) and isinstance(n.ctx, ast.Store) and n.attr in class_attrs \
+        and n.lineno not in executed_lines:
+      return {"attr": n.attr, "store_line_not_executed": n.lineno}
+  return None
+
+
 def view_signature(ctx, var, path, leaf_shape, max_nodes=400, executed_lines=None, def_ranges=()):
   """Looks for the lost value among the bindings reachable along `path`."""
   exitn = ctx.exitpoint
@@ -258,6 +302,9 @@ def view_signature(ctx, var, path, leaf_shape, max_nodes=400, executed_lines=Non
   if not invisible:
     return {"found": True, "invisible": False,
             "why": "a binding of the lost class is visible at exit (lost later, in output/optimisation)"}
+  sc = selfconflict_signature(invisible)
+  if sc:
+    return {"found": True, "invisible": True, "selfconflict": sc}
   if executed_lines is not None:
     nr = notrun_signature(invisible, executed_lines, def_ranges=def_ranges)
     if nr:
@@ -293,8 +340,31 @@ def view_signature(ctx, var, path, leaf_shape, max_nodes=400, executed_lines=Non
                       "unexplainable_source_set_at_node": o.where.id,
                       "representative_used": f"binding {src.id} {str(src.data)[:40]}",
                       "equivalent_sibling_that_explains": f"binding {alt.id} {str(alt.data)[:40]}"}
+  # R4: visible once node conditions are ignored?
+  program = ctx.program
+  conds = [(n, n.condition) for n in program.cfg_nodes if n.condition is not None]
+  try:
+    for n, _ in conds:
+      n.condition = None
+    vis_nocond = any(b.IsVisible(exitn) for b in invisible)
+  finally:
+    for n, c in conds:
+      n.condition = c
+  if vis_nocond:
+    return {"found": True, "invisible": True, "cond": True, "conditional_nodes": len(conds)}
+  # R5: overwritten on the way to the exit
+  for b in invisible:
+    for o in b.origins:
+      for other in b.variable.bindings:
+        if other.id == b.id:
+          continue
+        for oo in other.origins:
+          if oo.where.id != o.where.id and program.is_reachable(o.where, oo.where) and \
+              program.is_reachable(oo.where, exitn) and not any(x.where.id == oo.where.id for x in b.origins):
+            return {"found": True, "invisible": True, "rebound": True,
+                    "lost": f"binding {b.id} at {o.where.name}", "rebound_at": oo.where.name}
   return {"found": True, "invisible": True, "sibling": False,
-          "why": "lost binding is invisible at exit; no source set that an equivalent sibling binding would explain"}
+          "why": "lost binding is invisible at exit; none of the recognised reasons applies"}
 
 
 def _alternatives(src, depth=0):
